@@ -1161,6 +1161,8 @@ func (cch *cache) Save() error {
 			tmpPath, cch.filePath, err)
 	}
 
+	verifSaved(cch.filePath)
+
 	return nil
 }
 
